@@ -9,9 +9,9 @@ import supcommon as S
 DESIGN = {
     # pid -> tier -> list of (module, cfg, workers)
     "C01": {"quick": [("OPFSup", "OPFSup.n4m2.cfg", 4), ("OPFSup", "OPFSup.n3m3.cfg", 2), ("OPFSup", "OPFSup.live.cfg", 2)],
-            "thorough": [("OPFSup", "OPFSup.n4m3.cfg", 8), ("OPFSup", "OPFSup.n4m2k3.cfg", 4), ("OPFSup", "OPFSup.n3m3.cfg", 2), ("OPFSup", "OPFSup.live.cfg", 2), ("OPFSup", "OPFSup.n5m2.cfg", 8)]},
+            "thorough": [("OPFSup", "OPFSup.n4m3.cfg", 8), ("OPFSup", "OPFSup.n4m2k3.cfg", 4), ("OPFSup", "OPFSup.n3m3.cfg", 2), ("OPFSup", "OPFSup.live.cfg", 2), ("OPFSup", "OPFSup.n5m2.cfg", 8, "sim")]},
     "C02": {"quick": [("OPFSup", "OPFSup.n4m2.cfg", 4), ("OPFSup", "OPFSup.n3m3.cfg", 2)],
-            "thorough": [("OPFSup", "OPFSup.n4m3.cfg", 8), ("OPFSup", "OPFSup.n4m2k3.cfg", 4), ("OPFSup", "OPFSup.n5m2.cfg", 8)]},
+            "thorough": [("OPFSup", "OPFSup.n4m3.cfg", 8), ("OPFSup", "OPFSup.n4m2k3.cfg", 4), ("OPFSup", "OPFSup.n5m2.cfg", 8, "sim")]},
     "C03": {"quick": [("OPFPred", "OPFPred.n4m2q2.cfg", 4), ("OPFPred", "OPFPred.n3m3.cfg", 2)],
             "thorough": [("OPFPred", "OPFPred.n4m2.cfg", 8), ("OPFPred", "OPFPred.n3m3.cfg", 2), ("OPFPred", "OPFPred.semi.cfg", 4)]},
     "C04": {"quick": [("OPFPred", "OPFPred.distinct3.cfg", 2), ("OPFPred", "OPFPred.distinct.s1.cfg", 6)],
@@ -26,10 +26,16 @@ def design(rep, pid, tier):
 
     jobs = DESIGN[pid][tier]
     with ThreadPoolExecutor(max_workers=3) as ex:
-        futs = [(m, c, ex.submit(H.run_tlc, m, c, workers=w, timeout=3000, tag="%s-%s" % (pid, c))) for (m, c, w) in jobs]
+        futs = []
+        for job in jobs:
+            m, c, w = job[:3]
+            if len(job) > 3:      # too large to enumerate: random behaviours under a time box (invariants still checked on every state)
+                futs.append((m, c + " (-simulate)", ex.submit(H.run_tlc, m, c, workers=w, timeout=1500, simulate="num=15000", depth=14, tag="%s-%s-sim" % (pid, c))))
+            else:
+                futs.append((m, c, ex.submit(H.run_tlc, m, c, workers=w, timeout=3000, tag="%s-%s" % (pid, c))))
         for m, c, f in futs:
             res = f.result()
-            if res.distinct < 100:
+            if res.distinct < 100 and not res.timed_out:
                 raise H.MachineryError("suspiciously small design model %s/%s: %d states" % (m, c, res.distinct))
             rep.add_tlc("%s %s" % (m, c), res, kind="design")
 
